@@ -345,6 +345,16 @@ class ManagerRig:
         except Exception:
             return []
 
+    def wait_peer_readable(self, addr, timeout=3.0):
+        """Harness side, manager idle at the gate: wait until the manager-side socket of client `addr` is
+        readable (FIN or RST has reached the manager's kernel). No data is consumed."""
+        addr = tuple(addr)
+        for s, p in list(self.peer.items()):
+            if p == addr and s.fileno() >= 0:
+                r, _, _ = _real_select.select([s], [], [], timeout)
+                return bool(r)
+        return False
+
     def settle(self, timeout=5.0):
         """Everything the manager has written so far is in the harness byte logs when this returns True."""
         ok = self.outq_empty(timeout)
